@@ -107,7 +107,9 @@ def external_mutations(repo: Repo, props: set, exclude_class: str = None, exclud
                 if isinstance(t, ast.Subscript) and root_prop(t):
                     out.append((m, qual, node))
                 elif isinstance(t, ast.Attribute) and t.attr in props and not (
-                        isinstance(t.value, ast.Name) and t.value.id == 'self'):
+                        isinstance(t.value, ast.Name) and t.value.id == 'self') and isinstance(node, (ast.AugAssign, ast.Delete)):
+                    # (a plain `other.<prop> = value` binds an attribute of ANOTHER object that happens to carry the same name - a result record, a
+                    # context object; it does not touch the vector the engine handed out.  `+=` / `del` do.)
                     out.append((m, qual, node))
     return out
 
